@@ -4,7 +4,8 @@
     WHICH candidates an atom produces (all occurrences / engine matches, each matching at its position)
     is the subject of C01; here it appears as the hypothesis on the candidate list. *)
 From ZV Require Import Lib.Base Lib.GoSearch Lib.RuneCount Model.Lines Model.Ranges
-  Proofs.LinesMatch Proofs.RangesGather Proofs.RangesOffsets Generated.RangesConsts.
+  Proofs.LinesMatch Proofs.RangesGather Proofs.RangesOffsets Proofs.RangesFind Generated.RangesConsts.
+From ZV Require Lib.Utf8.
 From Coq Require Import Sorting.Sorted Sorting.Permutation.
 
 (** gatherMatches on any non-empty candidate list (any mix of atoms, file-name and content candidates):
@@ -73,19 +74,44 @@ Theorem C02_break_newlines_partial : forall c ms,
 Proof. exact break_matches_spec. Qed.
 Print Assumptions C02_break_newlines_partial.
 
-(** rune -> byte translation, table part, for EVERY list of samples and every compression:
+(** RUNE -> BYTE TRANSLATION, FULL: for every corpus [pre ++ doc :: post] indexed by one builder (the builder's sampling
+    in newSearchableString, one sample per runeOffsetFrequency runes of the corpus-global rune index, each document
+    decoded on its own), the table compressed by makeRuneOffsetMap, runeOffsetMap.lookup with Go's binary search and the
+    repaired findOffset (restart at the document start, read window of utf8.UTFMax*runeOffsetFrequency bytes clipped
+    to the document, utf8.DecodeRune loop; file-name variant on the in-memory blob): for EVERY rune offset r inside
+    the document (every candidate start is one: a trigram starts there), every byte tail behind the content section and
+    valid or invalid UTF-8 alike, findOffset returns the r-th rune boundary of Go's decoding of the document
+    (Lib/Utf8.v: [rune_boundaries] = the positions of the loop "DecodeRune, advance by its width"), i.e. the byte
+    length of the first r runes.  With the PlainASCII shortcut when the documents are ASCII.
+    The frequency and the window factor are the constants regenerated from the source (Generated/RangesConsts.v):
+    with the former factor 3 this proof does not go through (and see [C02_find_offset_window3_refuted]). *)
+Theorem C02_rune_to_byte : forall (filename : bool) plain pre doc post tail r,
+  (plain = true -> forallb (fun b => (b <? 128)%N) doc = true) ->
+  r < Utf8.rune_count doc ->
+  find_offset_corpus rune_offset_frequency (if filename then @None nat else content_window) plain
+    (pre ++ doc :: post) tail (length pre) r
+  = Ok (nth r (Utf8.rune_boundaries doc) 0).
+Proof. exact find_offset_repo. Qed.
+Print Assumptions C02_rune_to_byte.
+
+(** ... which is a rune boundary inside the document: match ranges start where Go's decoder stands *)
+Theorem C02_rune_to_byte_is_boundary : forall (filename : bool) plain pre doc post tail r,
+  (plain = true -> forallb (fun b => (b <? 128)%N) doc = true) ->
+  r < Utf8.rune_count doc ->
+  exists b, find_offset_corpus rune_offset_frequency (if filename then @None nat else content_window) plain
+              (pre ++ doc :: post) tail (length pre) r = Ok b /\ Utf8.RB doc b /\ b < length doc.
+Proof. exact find_offset_repo_boundary. Qed.
+Print Assumptions C02_rune_to_byte_is_boundary.
+
+(** table part on its own, for EVERY list of samples (not only those a builder produces) and every compression:
     lookup(makeRuneOffsetMap(samples), k*freq + left) = (samples[k], left), including offsets exactly on
-    multiples of the frequency (left = 0) — with Go's binary search.
-    _partial: "findOffset r = byte length of the first r runes" additionally needs the sampling invariant of
-    the builder and the decode loop; these are validated by the correspondence (G_samples, G_find) and the
-    Go oracle, and the two read-window defects found there are fixed in /repo, but the end-to-end
-    statement is not yet proved in Coq. *)
-Theorem C02_rune_to_byte_table_partial : forall offs k left,
+    multiples of the frequency (left = 0) — with Go's binary search. *)
+Theorem C02_rune_to_byte_table : forall offs k left,
   k < length offs -> left < rune_offset_frequency ->
   lookup rune_offset_frequency (make_map rune_offset_frequency offs) (k * rune_offset_frequency + left)
   = (nth k offs 0, left).
 Proof. intros. apply lookup_make_map; auto. unfold rune_offset_frequency. lia. Qed.
-Print Assumptions C02_rune_to_byte_table_partial.
+Print Assumptions C02_rune_to_byte_table.
 
 (** the read window of findOffset must hold utf8.UTFMax bytes per rune: with the former factor 3 the
     faithful model returns a wrong offset (76 four-byte runes, then one more rune) — the defect fixed
@@ -110,6 +136,24 @@ Example ex_cross_document :
   forallb (fun r => match find_offset_corpus rune_offset_frequency content_window false ex_docs (repeat 0%N 400) 1 r with
                     | Ok b => b =? runes_bytes (nth 1 ex_docs []) r | _ => false end) (seq 0 6) = true.
 Proof. vm_compute. reflexivity. Qed.
+
+(* non-vacuity of C02_rune_to_byte: the hypotheses hold for the second document of ex_docs and r = 0..4 (the stray
+   continuation byte 0xA9 is a rune of width 1); wide_doc: 76 four-byte runes, boundaries 0,4,..,304, then 305 *)
+Example ex_rune_to_byte_hyps :
+  Utf8.rune_count (nth 1 ex_docs []) = 5 /\
+  map (fun r => nth r (Utf8.rune_boundaries (nth 1 ex_docs [])) 0) (seq 0 5) = [0; 1; 2; 3; 4] /\
+  Utf8.rune_count wide_doc = 78 /\ map (fun r => nth r (Utf8.rune_boundaries wide_doc) 0) [1; 76; 77] = [4; 304; 305].
+Proof. vm_compute. repeat split; reflexivity. Qed.
+
+(* the hypothesis r < rune_count doc is needed at one place only: the END of the LAST document when the corpus holds a
+   multiple of runeOffsetFrequency runes (no sample exists for that rune index; lookup extrapolates 1 byte per rune).
+   Not reachable from Search: findOffset is only called with candidate START offsets (a trigram starts there, so
+   r + 3 <= rune count).  100 x U+00E9: findOffset(100) = 100, the boundary is 200. *)
+Definition corpus_end_doc : list N := concat (repeat [195; 169]%N 100).
+Example ex_corpus_end_outside_domain :
+  find_offset_corpus rune_offset_frequency content_window false [corpus_end_doc] (repeat 0%N 400) 0 100 = Ok 100 /\
+  nth 100 (Utf8.rune_boundaries corpus_end_doc) 0 = 200 /\ Utf8.rune_count corpus_end_doc = 100.
+Proof. vm_compute. repeat split; reflexivity. Qed.
 
 Definition ex_cands : list cand :=
   [ {| c_fn := false; c_off := 4; c_sz := 3 |}; {| c_fn := false; c_off := 2; c_sz := 3 |};
